@@ -3,7 +3,13 @@
 package index
 
 import (
+	"fmt"
+	"math"
+	"strconv"
+	"strings"
+
 	"github.com/sourcegraph/zoekt"
+	"github.com/sourcegraph/zoekt/query"
 )
 
 // Verification hooks for property C01 (search exactness). Not part of the normal build.
@@ -40,4 +46,413 @@ func VerifNewShardBuilder(r *zoekt.Repository, compound bool) (*ShardBuilder, er
 // VerifStartRepository starts the next repository of a compound shard under construction (ShardBuilder.setRepository).
 func VerifStartRepository(b *ShardBuilder, r *zoekt.Repository) error {
 	return b.setRepository(r)
+}
+
+// ---------------------------------------------------------------------------------------------------------------
+// Search trace: the constructed match tree with the data of its leaves, and the observable behaviour of the document
+// loop of indexData.Search on it (raw nextDoc values, candidates after prepare, the state after every cost level,
+// matching documents). The loop below repeats the one in indexData.Search (eval.go) without limits, ranking or match
+// collection; the harness checks that the documents it finds are those the real Search returns.
+
+// VerifTrace is the result of VerifSearchTrace.
+type VerifTrace struct {
+	Skip string   // non-empty: no trace (why)
+	In   string   // "<live bits> <names> <contents> <tree>" for the model driver
+	Out  string   // "tree=<shape> v=<visits> last=<raw> res=<docs>" or "tree=nil"
+	Res  []string // repository + "\x00" + file name of the matching documents, in document order
+}
+
+func verifRunes(b []byte) string {
+	if len(b) == 0 {
+		return "-"
+	}
+	var sb strings.Builder
+	first := true
+	for _, r := range string(b) {
+		if !first {
+			sb.WriteByte(',')
+		}
+		first = false
+		sb.WriteString(strconv.Itoa(int(r)))
+	}
+	return sb.String()
+}
+
+func verifBits(n uint32, f func(uint32) bool) string {
+	if n == 0 {
+		return "-"
+	}
+	b := make([]byte, n)
+	for i := uint32(0); i < n; i++ {
+		b[i] = '0'
+		if f(i) {
+			b[i] = '1'
+		}
+	}
+	return string(b)
+}
+
+// verifDrain lists the postings a (copy of a) basic hit iterator yields, one list per case variant.
+func verifDrain(it hitIterator) (string, bool) {
+	one := func(c *compressedPostingIterator) string {
+		cp := *c
+		var xs []string
+		for p := cp.first(); p != math.MaxUint32; p = cp.first() {
+			xs = append(xs, strconv.Itoa(int(p)))
+			cp.next(p)
+		}
+		return strings.Join(xs, ",")
+	}
+	switch t := it.(type) {
+	case *compressedPostingIterator:
+		return one(t), true
+	case *mergingIterator:
+		var vs []string
+		for _, j := range t.iters {
+			c, ok := j.(*compressedPostingIterator)
+			if !ok {
+				return "", false
+			}
+			vs = append(vs, one(c))
+		}
+		if len(vs) == 0 {
+			return "-", true
+		}
+		return strings.Join(vs, "/"), true
+	}
+	return "", false
+}
+
+func verifBool(b bool) string {
+	if b {
+		return "1"
+	}
+	return "0"
+}
+
+func (d *indexData) verifDumpTree(mt matchTree, toks *[]string) bool {
+	n := d.numDocs()
+	add := func(s string) { *toks = append(*toks, s) }
+	kids := func(tag string, ch []matchTree) bool {
+		add(fmt.Sprintf("%s:%d", tag, len(ch)))
+		for _, c := range ch {
+			if !d.verifDumpTree(c, toks) {
+				return false
+			}
+		}
+		return true
+	}
+	text := func(fileName bool, doc uint32) []byte {
+		if fileName {
+			return d.fileName(doc)
+		}
+		b, _ := d.readContents(doc)
+		return b
+	}
+	switch t := mt.(type) {
+	case *andLineMatchTree:
+		return kids("L", t.children)
+	case *andMatchTree:
+		return kids("A", t.children)
+	case *orMatchTree:
+		return kids("O", t.children)
+	case *notMatchTree:
+		add("N")
+		return d.verifDumpTree(t.child, toks)
+	case *fileNameMatchTree:
+		add("F")
+		return d.verifDumpTree(t.child, toks)
+	case *boostMatchTree:
+		add("B")
+		return d.verifDumpTree(t.child, toks)
+	case *noVisitMatchTree:
+		add("V")
+		return d.verifDumpTree(t.matchTree, toks)
+	case *bruteForceMatchTree:
+		add("T")
+	case *noMatchTree:
+		add("Z")
+	case *docMatchTree:
+		add("D:" + verifBits(n, t.predicate))
+	case *branchQueryMatchTree:
+		add("H:" + verifBits(n, func(i uint32) bool { return t.masks[t.repos[i]]&t.fileMasks[i] != 0 }))
+	case *regexpMatchTree:
+		add("R:" + verifBool(t.fileName) + ":" + verifBits(n, func(i uint32) bool { return t.regexp.Match(text(t.fileName, i)) }))
+	case *wordMatchTree:
+		add("W:" + verifBool(t.fileName) + ":" + verifBits(n, func(i uint32) bool {
+			var st zoekt.Stats
+			cp := &contentProvider{id: d, stats: &st}
+			cp.setDocument(i)
+			w := &wordMatchTree{word: t.word, fileName: t.fileName}
+			return w.matches(cp, costRegexp, nil) == matchesFound
+		}))
+	case *substrMatchTree:
+		res, ok := t.matchIterator.(*ngramIterationResults)
+		if !ok {
+			return false
+		}
+		switch it := res.matchIterator.(type) {
+		case *noMatchTree:
+			pat := []byte(t.query.Pattern)
+			if !t.caseSensitive {
+				pat = toLower(pat)
+			}
+			add("X:" + verifBool(t.fileName) + ":" + verifBool(t.caseSensitive) + ":" + verifRunes(pat))
+		case *ngramDocIterator:
+			pat := res.substrBytes
+			if !res.caseSensitive {
+				pat = res.substrLowered
+			}
+			var p1, p2 string
+			dist := uint32(0)
+			if di, ok := it.iter.(*distanceHitIterator); ok {
+				var ok1, ok2 bool
+				p1, ok1 = verifDrain(di.i1)
+				p2, ok2 = verifDrain(di.i2)
+				if !ok1 || !ok2 || di.started {
+					return false
+				}
+				dist = di.distance
+			} else {
+				var ok1 bool
+				p1, ok1 = verifDrain(it.iter)
+				if !ok1 {
+					return false
+				}
+				p2 = "-"
+			}
+			add(fmt.Sprintf("S:%s:%s:%d:%d:%d:%s:%s:%s", verifBool(t.fileName), verifBool(res.caseSensitive), it.leftPad, it.rightPad, dist, p1, p2, verifRunes(pat)))
+		default:
+			return false
+		}
+	default:
+		return false // symbol trees are not part of the modelled fragment
+	}
+	return true
+}
+
+func verifShape(mt matchTree, out *[]string) {
+	add := func(s string) { *out = append(*out, s) }
+	switch t := mt.(type) {
+	case *andLineMatchTree:
+		add(fmt.Sprintf("L%d", len(t.children)))
+		for _, c := range t.children {
+			verifShape(c, out)
+		}
+	case *andMatchTree:
+		add(fmt.Sprintf("A%d", len(t.children)))
+		for _, c := range t.children {
+			verifShape(c, out)
+		}
+	case *orMatchTree:
+		add(fmt.Sprintf("O%d", len(t.children)))
+		for _, c := range t.children {
+			verifShape(c, out)
+		}
+	case *notMatchTree:
+		add("N")
+		verifShape(t.child, out)
+	case *fileNameMatchTree:
+		add("F")
+		verifShape(t.child, out)
+	case *boostMatchTree:
+		add("B")
+		verifShape(t.child, out)
+	case *noVisitMatchTree:
+		add("V")
+		verifShape(t.matchTree, out)
+	case *bruteForceMatchTree:
+		add("T")
+	case *noMatchTree:
+		add("Z")
+	case *docMatchTree:
+		add("D")
+	case *branchQueryMatchTree:
+		add("H")
+	case *regexpMatchTree:
+		add("R")
+	case *wordMatchTree:
+		add("W")
+	case *substrMatchTree:
+		if res, ok := t.matchIterator.(*ngramIterationResults); ok {
+			if _, no := res.matchIterator.(*noMatchTree); no {
+				add("X")
+				return
+			}
+		}
+		add("S")
+	default:
+		add("?")
+	}
+}
+
+func verifSubCands(mt matchTree, out *[]string) {
+	switch t := mt.(type) {
+	case *andLineMatchTree:
+		for _, c := range t.children {
+			verifSubCands(c, out)
+		}
+	case *andMatchTree:
+		for _, c := range t.children {
+			verifSubCands(c, out)
+		}
+	case *orMatchTree:
+		for _, c := range t.children {
+			verifSubCands(c, out)
+		}
+	case *notMatchTree:
+		verifSubCands(t.child, out)
+	case *fileNameMatchTree:
+		verifSubCands(t.child, out)
+	case *boostMatchTree:
+		verifSubCands(t.child, out)
+	case *noVisitMatchTree:
+		verifSubCands(t.matchTree, out)
+	case *substrMatchTree:
+		if len(t.current) == 0 {
+			*out = append(*out, "-")
+			return
+		}
+		var xs []string
+		for _, c := range t.current {
+			xs = append(xs, strconv.Itoa(int(c.runeOffset)))
+		}
+		*out = append(*out, strings.Join(xs, "."))
+	}
+}
+
+// VerifSearchTrace builds the match tree for q exactly as indexData.Search does and traces the document loop.
+func VerifSearchTrace(s zoekt.Searcher, q query.Q) (tr VerifTrace, err error) {
+	d, ok := s.(*indexData)
+	if !ok {
+		return VerifTrace{Skip: "not-an-indexData"}, nil
+	}
+	if len(d.fileNameIndex) == 0 {
+		return VerifTrace{Skip: "empty-shard"}, nil
+	}
+	q = d.simplify(q)
+	if c, ok := q.(*query.Const); ok && !c.Value {
+		return VerifTrace{Skip: "const-false"}, nil
+	}
+	q = query.Map(q, query.ExpandFileContent)
+	mt, err := d.newMatchTree(q, matchTreeOpt{})
+	if err != nil {
+		return VerifTrace{}, err
+	}
+	docCount := uint32(len(d.fileBranchMasks))
+	liveDoc := func(doc uint32) bool {
+		md := &d.repoMetaData[d.repos[doc]]
+		if md.Tombstone {
+			return false
+		}
+		if len(md.FileTombstones) > 0 {
+			if _, dead := md.FileTombstones[string(d.fileName(doc))]; dead {
+				return false
+			}
+		}
+		return true
+	}
+	var toks []string
+	if !d.verifDumpTree(mt, &toks) {
+		return VerifTrace{Skip: "unmodelled-node"}, nil
+	}
+	var names, contents []string
+	for i := uint32(0); i < docCount; i++ {
+		names = append(names, verifRunes(d.fileName(i)))
+		b, err := d.readContents(i)
+		if err != nil {
+			return VerifTrace{}, err
+		}
+		contents = append(contents, verifRunes(b))
+	}
+	tr.In = verifBits(docCount, liveDoc) + " " + strings.Join(names, "|") + " " + strings.Join(contents, "|") + " " + strings.Join(toks, ";")
+
+	mt, err = pruneMatchTree(mt)
+	if err != nil {
+		return VerifTrace{}, err
+	}
+	if mt == nil {
+		tr.Out = "tree=nil"
+		return tr, nil
+	}
+	var shape []string
+	verifShape(mt, &shape)
+
+	var stats zoekt.Stats
+	cp := &contentProvider{id: d, stats: &stats}
+	raw := func(n uint32) string {
+		if n == math.MaxUint32 {
+			return "M"
+		}
+		return strconv.Itoa(int(n))
+	}
+	var visits, res []string
+	lastDoc := -1
+	lastRaw := uint32(0)
+	panicked := false
+	func() {
+		defer func() {
+			if p := recover(); p != nil {
+				panicked = true
+			}
+		}()
+	nextFileMatch:
+		for {
+			nextDoc := mt.nextDoc()
+			lastRaw = nextDoc
+			if int(nextDoc) <= lastDoc {
+				nextDoc = uint32(lastDoc + 1)
+			}
+			for ; nextDoc < docCount; nextDoc++ {
+				if !liveDoc(nextDoc) {
+					continue
+				}
+				break
+			}
+			if nextDoc >= docCount {
+				break
+			}
+			lastDoc = int(nextDoc)
+			mt.prepare(nextDoc)
+			cp.setDocument(nextDoc)
+			var cands []string
+			verifSubCands(mt, &cands)
+			cstr := "_"
+			if len(cands) > 0 {
+				cstr = strings.Join(cands, "+")
+			}
+			known := make(map[matchTree]bool)
+			states := ""
+			emit := func() {
+				visits = append(visits, fmt.Sprintf("%d:%s:%s:%s", nextDoc, raw(lastRaw), states, cstr))
+			}
+			for cost := costMin; cost <= costMax; cost++ {
+				st := evalMatchTree(cp, cost, known, mt)
+				states += string("HFN"[st])
+				if st == matchesRequiresHigherCost && cost == costMax {
+					emit()
+					panic("did not decide")
+				}
+				if st == matchesNone {
+					emit()
+					continue nextFileMatch
+				}
+			}
+			emit()
+			res = append(res, strconv.Itoa(int(nextDoc)))
+			tr.Res = append(tr.Res, d.repoMetaData[d.repos[nextDoc]].Name+"\x00"+string(d.fileName(nextDoc)))
+		}
+	}()
+	vs, rs := "-", "-"
+	if len(visits) > 0 {
+		vs = strings.Join(visits, ",")
+	}
+	if len(res) > 0 {
+		rs = strings.Join(res, ",")
+	}
+	tr.Out = fmt.Sprintf("tree=%s v=%s last=%s res=%s", strings.Join(shape, "."), vs, raw(lastRaw), rs)
+	if panicked {
+		tr.Out += " PANIC"
+	}
+	return tr, nil
 }
